@@ -1134,6 +1134,16 @@ class Group(System):
             if self._missing_partials:
                 self._update_dataflow_graph(responses)
 
+            # The outputs of an implicit component that are coupled through its residuals are
+            # solved together, so they depend on each other even if only one of them is
+            # connected to the rest of the model.
+            graph = self._dataflow_graph
+            for comp in self.system_iter(recurse=True, typ=ImplicitComponent):
+                outputs = comp._var_allprocs_abs2meta['output']
+                for of, wrt in comp._subjacs_info:
+                    if of != wrt and wrt in outputs and of in graph and wrt in graph:
+                        graph.add_edge(wrt, of)
+
         self._problem_meta['relevance'] = get_relevance(self, responses, desvars)
 
         # Transfers have to be set up after the vector setup.
